@@ -2,6 +2,10 @@
 BASELINE = "cd /repo && /venv/bin/python -m pytest -ra -q -p no:cacheprovider --timeout=900 --continue-on-collection-errors"
 
 ENGINES = [
+    {"name": "irsem", "path": "vt/irsem.py", "serves_properties": ["C35", "C36"],
+     "kind_free_text": "S-expression reader for Hail IR text + z3-valued big-step evaluator (ints as bit-vectors, bools, structs, guarded arrays/streams, agg/scan contexts) with scope and context checking"},
+    {"name": "shapex", "path": "vt/shapex.py", "serves_properties": ["C35", "C36"],
+     "kind_free_text": "path explorer for symbolic program builders: glue.choose-style forks on fresh z3 integers with z3 feasibility per fork, pinned prefixes for sharding, trace-replayed prefixes (determinism checked), streamed outcomes"},
     {"name": "sched", "path": "vt/sched.py", "serves_properties": ["C16", "C24", "C26", "C40"],
      "kind_free_text": "symbolic scheduler harness: CrossHair (z3) drives the real asyncio scheduler (BaseEventLoop, fixed clock, null I/O selector) through schedules of symbolic action numbers / drain bits / weights / clock increments; sharded into per-process conditions with reachability twins; counterexamples shrunk and replayed on the stock event loop"},
     {"name": "shapesym", "path": "vt/shapesym.py", "serves_properties": ["C17", "C18"],
@@ -166,6 +170,9 @@ CHECKS["C26"] = dict(level="other",
  text="CrossHair on the real TimeLimitedMaxSizeCache.lookup with 2-3 concurrent lookup tasks, a director-controlled load (value or LoadError), clock and cancellations; num_slots 1..2, lifetime 1..4, 2 keys, actions/keys/dt/drain bits symbolic; k=4 (quick, 2 tasks), 3 tasks k=4 and 2 tasks k=5 (thorough). Asserts size <= num_slots, returned values younger than lifetime, one in-flight load per key, a lookup raises only its key's LoadError or its own cancellation, and liveness. Counterexamples replayed on the stock loop.",
  note="Two known-finding classes on the current tree (cancelled-waiter-cancels-shared-load, cancelled-loader-caller-fails-other-waiters); passes on a candidate fix (shielded shared load task). prometheus metrics inert; prometheus_async.aio.time(metric, fut) modelled as a coroutine awaiting fut (package absent); clock advances only at quiescent points; shutdown() not exercised.",
  technique="CrossHair symbolic lookup/load/cancel/clock schedules on the real class; replay on plain asyncio", design_ref="6/C26, 3.2")
+
+CHECKS["C35"] = dict(level="other", text="Bounded-exhaustive over expression DAG shapes (<=3 non-leaf nodes for the full kind sets, <=4/5/6 for the reduced families listed in evidence bounds; arrays <=2 elements; both direct hail.ir construction and construction through hl.* calls), and for ALL leaf values per shape: the text of the real CSERenderer denotes the same value as the text of the real PlainRenderer, every lifted Let/AggLet is in scope and in the right eval/agg/scan context, the text is well formed and the renderer does not raise; in the stream-free strict family error behaviour (ArrayRef) agrees too. One z3 validity query per batch of <=300 shapes over shape integers and leaf variables. 'other' because it is a bounded function-level equivalence check, not a transition system.", note="Trusted: vt/irsem.py (reader + z3 big-step evaluator: total semantics, no missing values, strict Let, Sum/AggFilter/AggLet/StreamAgg/StreamAggScan only; node layouts cross-checked against Parser.scala cases each run), vt/shapex.py explorer, builder well-formedness (types/scopes), z3. Token-identical texts contribute false. Aggregator registry entry Sum(int64) re-registered with real type objects (parsimonious absent). Known finding: cse-print-pass-binding-site-id-depth-collision. Shapes outside the bounds, NA semantics, and other agg ops are not covered.", technique="native solver-forked shape exploration + z3 equivalence of both rendered IR texts", design_ref="6/C35")
+CHECKS["C36"] = dict(level="other", text="(A) For Python literals built from ints (all of Z), bools, nested lists (depth<=3, len<=3), tuples and str-keyed dicts: every path of the real impute_type/typecheck/hl.literal (AST interpreted to z3 path conditions) returns exactly the type an independent oracle demands for the int32/int64/out-of-range region of each leaf, the value passes typecheck against that type, values outside int64 are rejected, and hl.literal(int) builds I32/I64 with the reported dtype; decided by z3 validity per path, each path validated on the real functions. (B) For every program of <=4 chained API calls over the listed expression/Table/MatrixTable operations (bounded exhaustive, shapes as z3 integers), after every accepted call the front end's reported types equal the IR's cached type, a deep recomputation by the real _compute_type, and a type inferred from the IR text by engine-side rules read from the Scala operator tables. 'other': bounded function/program-level check.", note="Trusted: vt/pyk.py + harness/C36_lit.Interp (set/dict/nested comprehensions, try/except, typecheck-decorated functions entered at __wrapped__, ir.I32/I64/construct_expr as recording intrinsics), the oracle in harness/C36_lit.want, harness/C36_types.py rule table (nodes outside it are 'not inferred'), vt/shapex.py, harness/C31_peg.py stand-in for parsimonious, stub Env._hc (logger only), aggregator registry refilled via real register_aggregators(). Part B uses representative leaf values; floats/str/sets/loci as symbolic literal leaves, backend calls, aggregators and methods/ are out. Field order of a struct unified from list elements is hash-seed dependent in the front end and is not part of the claim.", technique="pyk AST->z3 path conditions + validity per path (literals); solver-forked bounded program exploration with three type oracles", design_ref="6/C36")
 
 NOT_APPLICABLE = {
     "C37": "Scala floating-point statistics calling Apache commons-math (gamma/beta, root finding); no scalac/JVM build of "
